@@ -65,21 +65,6 @@ MapRel == /\ Is("maprel")
    `tokenize -O detail` prints surface, feature, lexicon type, ids and costs but no ranges and
    no word ids; the ranges are DERIVED by the chain rule (each token starts where the scan
    continues after the previous one), the word id is any candidate that fits. *)
-RECURSIVE CliDerive(_, _, _, _, _, _, _)
-CliDerive(D, O, s, T, toks, i, prevE) ==       \* returns [ok, core] ; core = Seq of tokens with b, e, id
-   IF i > Len(toks) THEN [ok |-> TRUE, core |-> <<>>]
-   ELSE IF prevE >= Len(s) THEN [ok |-> FALSE, core |-> <<>>]
-   ELSE LET t == toks[i]
-            b == NextStart(D, O, s, T, prevE)
-            e == b + Len(t.surf)
-            fits == IF b >= Len(s) \/ e > Len(s) THEN {}
-                    ELSE {w \in CandsAt(D, O, s, T, b) : w.e = e /\ w.lt = t.lt /\ w.l = t.l /\ w.r = t.r /\ w.c = t.c
-                                                          /\ EntryFeature(D, w.lt, w.id) = t.f}
-        IN IF fits = {} \/ (e <= Len(s) /\ Slice(s, b, e) # t.surf) THEN [ok |-> FALSE, core |-> <<>>]
-           ELSE LET w == CHOOSE w \in fits : TRUE
-                    rest == CliDerive(D, O, s, T, toks, i + 1, e)
-                IN [ok |-> rest.ok, core |-> <<[b |-> b, e |-> e, lt |-> w.lt, id |-> w.id, l |-> w.l, r |-> w.r, c |-> w.c, tot |-> t.tot]>> \o rest.core]
-
 CliTok == /\ Is("clitok")
           /\ LET s == E.s  T == STab(dict, s, DevAstralNul)  d == CliDerive(dict, opts, s, T, E.toks, 1, 0) IN
              /\ AT("C01", "cli-tokens-are-candidates-in-chain", d.ok)
